@@ -343,6 +343,8 @@ func (ex *Exec) submit(c *CoroObj, sub Value) (Value, Value) {
 		ssel := 0
 		if !w.warm {
 			ssel = ex.choose(3, nil, "sender-outcome")
+		} else if w.warmSenderFail {
+			ssel = ex.choose(2, nil, "warm-sender-outcome")
 		}
 		switch ssel {
 		case 0:
@@ -561,9 +563,14 @@ func init() {
 		ex.H.noteBound("warm-up: the checked request is preceded by one earlier request sequence of the same process (symbolic inputs, empty database)")
 		return nil
 	})
+	vx("WarmSenderMayFail", func(ex *Exec, fr *Frame, a []Value, s ssa.Instruction) Value {
+		ex.W.warmSenderFail = true
+		return nil
+	})
 	vx("WarmEnd", func(ex *Exec, fr *Frame, a []Value, s ssa.Instruction) Value {
 		w := ex.W
 		w.warm = false
+		w.warmSenderFail = false
 		w.mode, w.subFaults = w.warmSave[0], w.warmSave[1]
 		w.yields = w.yields[:w.warmSave[2]]
 		w.senderLog = nil
